@@ -82,6 +82,21 @@ def to_poly(t, names, phi_ops=None):
         return None if a is None else -a
     if k == 'cast' and t[1] == 'int_to_float':
         return to_poly(t[3], names, phi_ops)
+    if k == 'call' and isinstance(t[1], str) and t[1].endswith("::from_bits") and len(t[2]) == 1:
+        # from_bits(K + to_bits(P)) with K a multiple of 2^52: the exponent of P is shifted by K >> 52,
+        # i.e. P * 2^(K >> 52) (exact in real arithmetic as long as the result stays a normal number)
+        x = t[2][0]
+        while x[0] == 'cast' and x[1] == 'int_to_int': x = x[3]
+        if x[0] == 'call' and isinstance(x[1], str) and x[1].endswith("::to_bits"):
+            return to_poly(x[2][0], names, phi_ops)          # K = 0 folded away
+        if x[0] == 'op' and x[1] == 'add':
+            for kc, other in ((x[3], x[4]), (x[4], x[3])):
+                while other[0] == 'cast' and other[1] == 'int_to_int': other = other[3]
+                if kc[0] == 'c' and kc[1] in INT_TYS and kc[2] % (1 << 52) == 0 and other[0] == 'call' and isinstance(other[1], str) and other[1].endswith("::to_bits"):
+                    inner = to_poly(other[2][0], names, phi_ops)
+                    if inner is None: return None
+                    sh = kc[2] >> 52 if kc[2] >= 0 else -((-kc[2]) >> 52)
+                    return inner * Poly.const(Fraction(2) ** sh)
     return None
 
 
